@@ -2,7 +2,7 @@
 import vlib
 
 SUB = "c04"
-MODULES = ["Mtv.Props.C04"]
+MODULES = ["Mtv.Props.C04", "Mtv.Envelope.HeadIge"]
 THEOREMS = [
     "Mtv.Envelope.openClient_no_panic",
     "Mtv.Envelope.route_no_panic",
@@ -22,6 +22,8 @@ THEOREMS = [
     "Mtv.Envelope.openClient_result_contract",
     "Mtv.Envelope.route_result_contract",
     "Mtv.Envelope.openClient_refuses_inconsistent_length",
+    "Mtv.Envelope.IgeExec.decLoop_head2",
+    "Mtv.Envelope.IgeExec.igeDec_head32",
 ]
 RULE = ("fault enumeration on packets sealed by the harness's own MTProto 1.0 server (body lengths 0, 4, 20, 100; thorough: "
         "0, 1, 4, 15, 16, 20, 100, 1000): every single-bit flip of the 24-byte header and sampled (thorough: all) ciphertext "
